@@ -38,6 +38,7 @@ Section C19.
   Variable plines : list string -> node -> nat -> nat * nat.
   Variables metric_ok lname_ok lvalue_ok dur_ok : string -> bool.
   Variable int_ok : node -> bool.
+  Variable null_ok : node -> bool.
 
   Notation PR := (parse_rule plines metric_ok lname_ok lvalue_ok).
   Notation PRS := (parse_rule_strict plines metric_ok lname_ok lvalue_ok).
@@ -89,7 +90,7 @@ Section C19.
     rule_ok (PRS lines c) -> PR lines 0 c = (PRS lines c, false).
   Proof.
     unfold parse_rule_strict, rule_ok.
-    destruct (negb (is_tag (n_tag c) mapTag)); [discriminate|].
+    destruct (negb (is_tag (n_tag c) mapTag) || kind_mismatch c KMapping)%bool; [discriminate|].
     destruct (bad_rule_key (unpack_nodes c)); [discriminate|].
     destruct (PR lines 0 c) as [r e]. destruct e; [discriminate|]. reflexivity.
   Qed.
@@ -160,20 +161,20 @@ Section C19.
   Lemma group_entry_inr thanos lines g k v g1 :
     group_entry plines metric_ok lname_ok lvalue_ok dur_ok int_ok thanos lines g k v = inr g1 ->
     (node_value k = "name" /\ g1 = g_set_name g (n_value v) /\ n_kind v = KScalar /\ n_value v <> "") \/
-    (node_value k = "labels" /\ g1 = g_set_labels g (new_yaml_map plines lines 0 k v)) \/
+    (node_value k = "labels" /\ g1 = g_set_labels g (new_yaml_map plines lines 0 k (match n_alias v with Some t => t | None => v end))) \/
     (node_value k = "rules" /\ g1 = g_add_rules g (map (PRS lines) (unpack_nodes v)) /\ is_tag (n_tag v) seqTag = true) \/
     (node_value k <> "name" /\ node_value k <> "labels" /\ node_value k <> "rules" /\ g1 = g).
   Proof.
     unfold group_entry. repeat break_if; intros H; try discriminate; inversion H; subst; clear H; eqb_hyps.
-    - left. repeat split; auto. unfold scalar_with_tag in *. apply andb_true_iff in E0. destruct E0 as [E0 _].
-      now apply kind_eqb_eq in E0.
-    - right. right. right. repeat split; try neq_const.
-    - right. right. right. repeat split; try neq_const.
-    - right. right. right. repeat split; try neq_const.
-    - right. left. split; auto.
-    - right. right. left. repeat split; auto.
-    - right. right. right. repeat split; try neq_const.
-    - right. right. right. repeat split; try neq_const.
+    all: first
+      [ solve [right; right; right; repeat split; try neq_const]
+      | solve [right; left; split; auto]
+      | solve [right; right; left; repeat split; auto]
+      | solve [left; repeat split; auto;
+               match goal with
+               | X : scalar_with_tag _ _ = true |- _ =>
+                   unfold scalar_with_tag in X; apply andb_true_iff in X; destruct X as [X _]; now apply kind_eqb_eq in X
+               end] ].
   Qed.
 
   Definition value_wf (v : node) : Prop :=
@@ -285,7 +286,7 @@ Section C19.
     exists gs, relaxed_group (S fuel) lines c = Some gs /\ all_rules gs = g_rules (PG thanos lines c).
   Proof.
     intros Hwf Hok. unfold parse_group in *.
-    destruct (negb (is_tag (n_tag c) mapTag)).
+    destruct (negb (is_tag (n_tag c) mapTag) || kind_mismatch c KMapping)%bool.
     { destruct Hok as [He _]. discriminate. }
     pose proof (group_loop_relaxed thanos lines (kind_eqb (n_kind c) KMapping) (n_line c) (mapping_nodes c) empty_group [] empty_group None
                   Hwf eq_refl (fun H => False_ind _ (Bool.diff_false_true H)) eq_refl Hok) as H.
@@ -450,7 +451,7 @@ Section C19.
     - cbn [groups_of_entries] in H.
       destruct (negb (n_tag k =? strTag)); [discriminate|].
       destruct (negb (node_value k =? "groups")) eqn:Ek; [discriminate|]. apply negb_false_iff, String.eqb_eq in Ek.
-      destruct (negb (is_tag (n_tag v) seqTag)) eqn:Et; [discriminate|]. apply negb_false_iff in Et.
+      destruct (negb (is_tag (n_tag v) seqTag) || kind_mismatch v KSequence)%bool eqn:Eo; [discriminate|]. apply orb_false_iff in Eo. destruct Eo as [Et Ekm]. apply negb_false_iff in Et.
       destruct (groups_of_seq plines metric_ok lname_ok lvalue_ok dur_ok int_ok thanos lines (unpack_nodes v) names acc)
         as [e|[names1 acc1]] eqn:GS; [discriminate|].
       pose proof (groups_of_entries_true _ _ _ _ _ _ H) as ->. cbn in H. inversion H; subst names' acc'. clear H.
@@ -483,7 +484,7 @@ Section C19.
   Proof.
     induction roots as [|n r IH]; intros names acc names' acc' Hwf Hr H Hok; cbn [groups_of_roots] in H.
     - inversion H; subst. exists [], []. now rewrite app_nil_r.
-    - destruct (negb (is_tag (n_tag n) mapTag)) eqn:Et; [discriminate|]. apply negb_false_iff in Et.
+    - destruct (negb (is_tag (n_tag n) mapTag) || kind_mismatch n KMapping)%bool eqn:Eo; [discriminate|]. apply orb_false_iff in Eo. destruct Eo as [Et Ekm]. apply negb_false_iff in Et.
       destruct (groups_of_entries plines metric_ok lname_ok lvalue_ok dur_ok int_ok thanos lines (mapping_nodes n) false names acc)
         as [e|[names1 acc1]] eqn:GE; [discriminate|].
       destruct (IH _ _ _ _ Hwf (fun x Hx => Hr x (or_intror Hx)) H Hok) as (gs2 & new2 & -> & Hc2 & Hr2).
@@ -526,13 +527,14 @@ Section C19.
   (** relaxed_eq_strict for one document (the only strict-valid shape besides the empty stream). *)
   Theorem relaxed_eq_strict_doc thanos lines d nl :
     wf_doc d ->
-    strict_valid (parse_strict plines metric_ok lname_ok lvalue_ok dur_ok int_ok thanos lines [(d, nl)] None) ->
+    strict_valid (parse_strict plines metric_ok lname_ok lvalue_ok dur_ok int_ok null_ok thanos lines [(d, nl)] None) ->
     exists f', parse_relaxed plines metric_ok lname_ok lvalue_ok lines [(d, nl)] None = Some f' /\
                f_error f' = None /\
                all_rules (f_groups f') =
-               all_rules (f_groups (parse_strict plines metric_ok lname_ok lvalue_ok dur_ok int_ok thanos lines [(d, nl)] None)).
+               all_rules (f_groups (parse_strict plines metric_ok lname_ok lvalue_ok dur_ok int_ok null_ok thanos lines [(d, nl)] None)).
   Proof.
     intros Hwf. unfold parse_strict, parse_relaxed. cbn [parse_strict_loop parse_relaxed_loop].
+    destruct (strict_prepass null_ok d) as [pe|]; [intros [He _]; discriminate|].
     destruct (parse_groups plines metric_ok lname_ok lvalue_ok dur_ok int_ok thanos (firstn nl lines) d) as [e|gs] eqn:PGs.
     - intros [He _]. discriminate.
     - cbn [app Nat.ltb Nat.leb f_groups f_error]. intros [_ Hok]. cbn [f_groups] in Hok.
@@ -543,24 +545,28 @@ Section C19.
 
   Lemma strict_loop_multi thanos lines yerr : forall r idx groups err,
     1 <= idx -> err <> None ->
-    f_error (parse_strict_loop plines metric_ok lname_ok lvalue_ok dur_ok int_ok thanos lines r yerr idx groups err) <> None.
+    f_error (parse_strict_loop plines metric_ok lname_ok lvalue_ok dur_ok int_ok null_ok thanos lines r yerr idx groups err) <> None.
   Proof.
     induction r as [|[d nl] r IH]; intros idx groups err Hi He; cbn [parse_strict_loop].
     - destruct yerr; cbn; [discriminate|exact He].
-    - destruct (parse_groups _ _ _ _ _ _ _ _ d); [cbn; discriminate|].
+    - destruct (strict_prepass null_ok d); [cbn; discriminate|].
+      destruct (parse_groups _ _ _ _ _ _ _ _ d); [cbn; discriminate|].
       apply IH; [lia|]. destruct idx; [lia|]. cbn. discriminate.
   Qed.
 
   (** Strict mode never accepts a stream of two or more documents, so the one-document theorem is the general one. *)
   Lemma strict_valid_single thanos lines ds yerr :
-    strict_valid (parse_strict plines metric_ok lname_ok lvalue_ok dur_ok int_ok thanos lines ds yerr) ->
+    strict_valid (parse_strict plines metric_ok lname_ok lvalue_ok dur_ok int_ok null_ok thanos lines ds yerr) ->
     yerr = None /\ (ds = [] \/ exists d nl, ds = [(d, nl)]).
   Proof.
     unfold parse_strict. destruct ds as [|[d nl] [|[d2 nl2] r]]; cbn [parse_strict_loop].
     - destruct yerr; intros [He _]; [discriminate|]. auto.
-    - destruct (parse_groups _ _ _ _ _ _ _ _ d); [intros [He _]; discriminate|].
+    - destruct (strict_prepass null_ok d); [intros [He _]; discriminate|].
+      destruct (parse_groups _ _ _ _ _ _ _ _ d); [intros [He _]; discriminate|].
       destruct yerr; intros [He _]; [discriminate|]. split; [reflexivity|]. right. eauto.
-    - destruct (parse_groups _ _ _ _ _ _ _ _ d); [intros [He _]; discriminate|].
+    - destruct (strict_prepass null_ok d); [intros [He _]; discriminate|].
+      destruct (parse_groups _ _ _ _ _ _ _ _ d); [intros [He _]; discriminate|].
+      destruct (strict_prepass null_ok d2); [intros [He _]; discriminate|].
       destruct (parse_groups _ _ _ _ _ _ _ _ d2); [intros [He _]; discriminate|].
       intros [He _]. exfalso. revert He. apply strict_loop_multi; [lia|]. cbn. discriminate.
   Qed.
